@@ -16,6 +16,7 @@ expressions inside `finalReply`):
 What a device wrote into the arglist, and when, is the device side (`Pm/Dev2*.lean`) and is not covered here. -/
 namespace Pm.Props.C03
 open Pm Pm.Client Pm.Daemon
+open Pm.Daemon.Reply
 open Pm.Dev2 (ActErr Arg)
 
 /-- **Range-compressed `status` / `beacon` reply.**  The reply consists of the three `302` lines built from
